@@ -438,7 +438,7 @@ Lemma close_fields st tok s2 :
   st_ok st -> In tok (live st) ->
   fwd s2 = fwd (untrack_all (st_sm st) tok) -> rev s2 = rev (untrack_all (st_sm st) tok) ->
   nb s2 = nb (st_sm st) - 1 -> max s2 = max (st_sm st) ->
-  st_ok (mkSt s2 (lremove tok (live st)) (filler st) (panicked st)).
+  st_ok (mkSt s2 (lremove tok (live st)) (filler st) (backs st) (panicked st)).
 Proof.
   intros [A B C D E F] L E1 E2 E3 E4.
   assert (Hlen : (0 < length (live st))%nat) by (destruct (live st); [destruct L|cbn; lia]).
@@ -495,10 +495,16 @@ Proof.
     + intros t [].
     + eapply sm_ok_maps; [| |exact A]; reflexivity.
   - destruct H as [A B C D E F].
-    constructor; cbn [st_sm live panicked set_slab fwd rev nb max]; auto.
+    constructor; cbn [st_sm live panicked set_slab set_base fwd rev nb max]; auto.
     eapply sm_ok_maps; [| |exact A]; reflexivity.
   - destruct H as [A B C D E F].
-    constructor; cbn [st_sm live panicked set_slab fwd rev nb max]; auto.
+    constructor; cbn [st_sm live panicked set_slab set_base fwd rev nb max]; auto.
+    eapply sm_ok_maps; [| |exact A]; reflexivity.
+  - destruct H as [A B C D E F].
+    constructor; cbn [st_sm live panicked set_slab set_base fwd rev nb max]; auto.
+    eapply sm_ok_maps; [| |exact A]; reflexivity.
+  - destruct H as [A B C D E F].
+    constructor; cbn [st_sm live panicked set_slab set_base fwd rev nb max]; auto.
     eapply sm_ok_maps; [| |exact A]; reflexivity.
   - destruct H as [A B C D E F]. unfold check_limits.
     destruct (max (st_sm st) <=? nb (st_sm st)); [|destruct (at_capacity (st_sm st))];
@@ -592,8 +598,10 @@ Proof.
     destruct AL as [Z|[M|Lt]]; [lia| |].
     + rewrite M. cbn [negb]. specialize (HC Hp k). lia.
     + destruct (mem k _); cbn [negb]; lia.
-  - split; cbn [st_sm set_slab limit fwd]; assumption.
-  - split; cbn [st_sm set_slab limit fwd]; assumption.
+  - split; cbn [st_sm set_slab set_base limit fwd]; assumption.
+  - split; cbn [st_sm set_slab set_base limit fwd]; assumption.
+  - split; cbn [st_sm set_slab set_base limit fwd]; assumption.
+  - split; cbn [st_sm set_slab set_base limit fwd]; assumption.
   - unfold check_limits. destruct (_ <=? _); [|destruct (at_capacity _)];
       split; cbn [fst st_sm set_accept limit fwd]; assumption.
 Qed.
@@ -652,4 +660,63 @@ Proof.
       rewrite X. reflexivity.
     + apply N.ltb_ge in G. assert (X : (p_used p <? p_cap p) = true) by (apply N.ltb_lt; lia).
       rewrite X. reflexivity.
+Qed.
+
+(* ------------------------------------------------------------------ *)
+(** * What the slab holds *)
+
+Definition slab_ok (st : state) : Prop :=
+  slab (st_sm st) = filler st + N.of_nat (length (live st)) + backs st /\ base (st_sm st) = filler st.
+
+Lemma apply_op_slab st o : st_ok st -> slab_ok st -> slab_ok (apply_op st o).
+Proof.
+  intros OK [HS HB]. destruct o; cbn [apply_op].
+  - split; reflexivity.
+  - unfold accept. destruct (lmem tok (live st)); [split; assumption|].
+    destruct (negb (can_accept (st_sm st))); [split; assumption|].
+    unfold check_limits. destruct (max (st_sm st) <=? nb (st_sm st)); [split; assumption|].
+    destruct (at_capacity (st_sm st)); [split; assumption|].
+    unfold incr. cbn [set_slab nb max]. destruct (nb (st_sm st) + 1 <=? max (st_sm st)).
+    + split; cbn [st_sm live filler backs set_nb set_slab slab base]; [rewrite app_length; cbn [length]; lia|assumption].
+    + split; assumption.
+  - unfold close. destruct (lmem tok (live st)) eqn:L; [|split; assumption].
+    apply lmem_In in L. pose proof (lremove_length tok (live st) (so_live _ OK) L) as LL.
+    unfold decr. cbn [untrack_all set_maps set_slab nb max can_accept].
+    destruct (nb (st_sm st) =? 0); [split; assumption|].
+    match goal with |- context [if ?c then _ else _] => destruct c end;
+      (split; unfold untrack_all; cbn [st_sm live filler backs set_accept set_nb set_slab set_maps slab base]; [lia|assumption]).
+  - unfold gate_track. destruct (negb (lmem tok (live st))); [split; assumption|].
+    destruct (at_limit (st_sm st) tok k ov); [split; assumption|].
+    unfold track. destruct (mem k _); split; assumption.
+  - unfold set_limit_op. destruct (n =? 0); split; assumption.
+  - split; cbn [st_sm live filler backs set_slab set_base slab base]; lia.
+  - split; cbn [st_sm live filler backs set_slab set_base slab base]; lia.
+  - split; cbn [st_sm live filler backs set_slab set_base slab base]; [lia|assumption].
+  - split; cbn [st_sm live filler backs set_slab set_base slab base]; [lia|assumption].
+  - unfold check_limits. destruct (max (st_sm st) <=? nb (st_sm st)); [|destruct (at_capacity (st_sm st))];
+      split; assumption.
+Qed.
+
+Lemma run_ops_slab : forall ops st, st_ok st -> slab_ok st -> slab_ok (run_ops st ops).
+Proof.
+  unfold run_ops. induction ops as [|o t IH]; intros st OK S; cbn [fold_left]; [assumption|].
+  apply IH; [apply apply_op_ok; assumption|apply apply_op_slab; assumption].
+Qed.
+
+Lemma init_slab : slab_ok init.
+Proof. split; reflexivity. Qed.
+
+(** a worker that serves nobody and holds no session entry admits a connection,
+    however many listeners and system entries it has *)
+Lemma idle_admits_lemma st :
+  st_ok st -> slab_ok st -> live st = [] -> backs st = 0 -> 1 <= max (st_sm st) ->
+  snd (check_limits (st_sm st)) = true.
+Proof.
+  intros OK [HS HB] L K M. pose proof (so_nb _ OK) as NB. rewrite L in NB, HS. cbn [length] in NB, HS.
+  unfold check_limits.
+  assert (E1 : (max (st_sm st) <=? nb (st_sm st)) = false) by (apply N.leb_gt; lia). rewrite E1.
+  assert (E2 : at_capacity (st_sm st) = false).
+  { unfold at_capacity. destruct (slab (st_sm st) <? 10 + 2 * max (st_sm st)) eqn:T; [reflexivity|].
+    apply N.ltb_ge in T. apply N.leb_gt. lia. }
+  rewrite E2. reflexivity.
 Qed.
